@@ -10,10 +10,10 @@ CLAIMED = {
         "operation by operation next to a std::map model; every result is compared, earlier value views are re-read after every later call, and the allocation ledger + ASan poison flag a premature free. "
         "mutex_db/olc_db histories are issued from 2-3 simulated threads with quiescent states, pause/resume and thread exit between calls, so deferred reclamation really frees nodes at varying points. "
         "For plain db the simulator degenerates to a seeded model-based run (no schedule dimension). Histories passing through non-representable byte-string key sets are the known finding D1.",
-   note="Key sets come from seeded shapes (1-3 branching positions, alphabets straddling node-class boundaries, dense ranges, sparse keys); oracle = std::map. " + SC,
+   note="Key sets come from seeded shapes (1-4 branching positions, alphabets straddling node-class boundaries, dense ranges, sparse keys; byte-string keys up to 24 bytes incl. deep shapes that branch beyond byte 8, kept representable step by step with the reference radix tree); oracle = std::map. " + SC,
    technique="deterministic simulation: seeded operation histories across simulated threads, checked against a map model + allocation ledger"),
  "C02": dict(engine="seqsim", level="exploration", design="DESIGN.md §6 C02",
-   text="C01-style histories with scan, scan_from and scan_range (both directions, early halt after 1-6 visits) interleaved; bounds are stored keys, their neighbours, keys leaving the tree at every depth, 0 and max; "
+   text="C01-style histories with scan, scan_from and scan_range (both directions, halt after 1-6 visits or at any position up to past the end) interleaved; bounds are stored keys, their neighbours, keys leaving the tree at every depth, 0 and max; "
         "caller-side bound buffers are placed in both address orders; the visited (key, value) sequence must equal the model's range exactly and the visitor must not be called after returning true.",
    note="Byte-string key sets are restricted to representable ones (D1 is owned by C01). " + SC,
    technique="deterministic simulation: seeded histories with scans, exact comparison with the ordered-map model"),
@@ -67,10 +67,10 @@ CLAIMED = {
    note="Representable key sets only; statistics-enabled builds. " + SC,
    technique="deterministic simulation: seeded histories checked against a reference radix-tree shape model and the allocation ledger"),
  "C13": dict(engine="mutexsim", level="exploration", design="DESIGN.md §6 C13",
-   text="2-4 plain simulated threads x 2-5 operations (get/insert/remove/empty/clear/scans) on one mutex_db over small key pools; scheduling points at every wrapped mutex call, every in_fake_critical_section access and "
+   text="2-8 plain simulated threads x 1-5 operations (get/insert/remove/empty/clear/scans; at most 22 per history) on one mutex_db<uint64> or mutex_db<key_view> over small key pools; scheduling points at every wrapped mutex call, every in_fake_critical_section access and "
         "allocation notification inside the tree, and while a get handle is held. The mutex is simulated as a blocking resource. Whole-history linearizability against a map with multi-key operations; owns_lock() == hit "
         "and the simulator's owner table after every call; held values re-read while writers queue; ledger flags a leaf freed under a held handle; deadlock detection.",
-   note="uint64 keys; <= 20 operations per history; the quantifier's free-running threads are replaced by schedules the simulator decides. " + SC,
+   note="<= 22 operations per history; the quantifier's free-running threads are replaced by schedules the simulator decides. " + SC,
    technique="deterministic simulation: seeded scheduler with simulated mutex blocking + whole-map linearizability checking"),
  "C14": dict(engine="olcsim", level="exploration", design="DESIGN.md §6 C14",
    text="Every C03/C09-style run continues under a fair tail until all operations return (step budget; lone spin = deadlock report), with allocation failures injected into inserts; afterwards a single-threaded sweep "
